@@ -187,18 +187,18 @@ def runROWS (rest : String) : String :=
   match rest.splitOn ";" with
   | hdr :: ops =>
     match (hdr.trimAscii.toString.splitOn " ").filter (· ≠ "") with
-    | [_, _, _, hz, t0] =>
-      match hz.toNat?, t0.toNat?, ops.mapM parseMOp with
-      | some HZ, some T0, some mops =>
+    | [_, ws, _, hz, t0] =>
+      match hz.toNat?, t0.toNat?, ops.mapM parseMOp, ws.toNat? with
+      | some HZ, some T0, some mops, some W =>
         let lim := if HZ = 0 then none else
           some (Limiter.drawCfg Limiter.LFix.current HZ, ({ cap := 20, prev := T0 } : Limiter.St))
-        let w := Rows.run { limiter := lim, now := T0 } mops
+        let w := Rows.run { limiter := lim, now := T0, wrapW := W } mops
         let showRow (r : Rows.Row) : String :=
           ".".intercalate ((((r.filter (·.w ≠ 0)).map (·.cp)).reverse.dropWhile (· == 32)).reverse.map toString)
         let showScr (rows : List Rows.Row) : String :=
           "|".intercalate (((rows.map showRow).reverse.dropWhile (· == "")).reverse)
         s!"panicked={w.panicked} " ++ " ; ".intercalate (w.frames.map showScr)
-      | _, _, _ => "bad-op"
+      | _, _, _, _ => "bad-op"
     | _ => "bad-op"
   | _ => "bad-op"
 
